@@ -817,15 +817,14 @@ theorem removeIdx_length {w : List Nat} {i : Nat} (hn : w.Nodup) (hi : i ∈ w) 
 /-- configuration and flags that neither `jobDone` nor `loop` touch -/
 structure Same (s s' : St) : Prop where
   e2ee : s'.e2ee = s.e2ee
-  fix : s'.fixEmpty = s.fixEmpty
   answered : s'.answered = s.answered
   started : s'.started = s.started
   page : s'.page = s.page
 
-theorem Same.rfl' (s : St) : Same s s := ⟨rfl, rfl, rfl, rfl, rfl⟩
+theorem Same.rfl' (s : St) : Same s s := ⟨rfl, rfl, rfl, rfl⟩
 
 theorem Same.trans {a b c : St} (h1 : Same a b) (h2 : Same b c) : Same a c :=
-  ⟨h2.e2ee.trans h1.e2ee, h2.fix.trans h1.fix, h2.answered.trans h1.answered,
+  ⟨h2.e2ee.trans h1.e2ee, h2.answered.trans h1.answered,
    h2.started.trans h1.started, h2.page.trans h1.page⟩
 
 /-- the `for` loop: indices of deferred jobs are appended to `waiting`; the promise is finished
@@ -854,7 +853,7 @@ theorem loop_spec (l : List Bool) : ∀ (s : St) (i : Nat),
       obtain ⟨h1, ⟨extra, h2, h3, h4⟩, h5, h6, h7⟩ := ih { s with waiting := s.waiting ++ [i] } (i + 1) hj' ha
       have hne : (loop { s with waiting := s.waiting ++ [i] } rest (i + 1)).1.waiting ≠ [] := by
         rw [h2]; simp
-      refine ⟨h1, ⟨i :: extra, by rw [h2]; simp, ?_, ?_⟩, ⟨h5.e2ee, h5.fix, h5.answered, h5.started, h5.page⟩, ?_, ?_⟩
+      refine ⟨h1, ⟨i :: extra, by rw [h2]; simp, ?_, ?_⟩, ⟨h5.e2ee, h5.answered, h5.started, h5.page⟩, ?_, ?_⟩
       · intro w hw
         rcases List.mem_cons.mp hw with h | h
         · omega
@@ -885,7 +884,7 @@ theorem loop_spec (l : List Bool) : ∀ (s : St) (i : Nat),
           | cons _ _ => rw [hw] at hj; simp only [List.length_cons] at hj; omega
         subst hrest
         simp only [loop, List.append_nil]
-        refine ⟨by simp [hw, hz'], ⟨[], by simp⟩, ⟨rfl, rfl, rfl, rfl, rfl⟩, ?_, ?_⟩
+        refine ⟨by simp [hw, hz'], ⟨[], by simp⟩, ⟨rfl, rfl, rfl, rfl⟩, ?_, ?_⟩
         · intro _; constructor <;> first | rfl | trivial
         · intro h
           rcases h with h | h
@@ -899,7 +898,7 @@ theorem loop_spec (l : List Bool) : ∀ (s : St) (i : Nat),
           omega
         obtain ⟨h1, ⟨extra, h2, h3, h4⟩, h5, h6, h7⟩ := ih { s with jobs := s.jobs - 1 } (i + 1) hj' ha
         simp only [List.nil_append]
-        refine ⟨h1, ⟨extra, h2, ?_, h4⟩, ⟨h5.e2ee, h5.fix, h5.answered, h5.started, h5.page⟩, ?_, ?_⟩
+        refine ⟨h1, ⟨extra, h2, ?_, h4⟩, ⟨h5.e2ee, h5.answered, h5.started, h5.page⟩, ?_, ?_⟩
         · intro w hw; have := h3 w hw; omega
         · intro h
           apply h6
@@ -921,9 +920,7 @@ theorem loop_spec (l : List Bool) : ∀ (s : St) (i : Nat),
           · cases h
 
 /-- invariant of the retrieval machine; `n` = number of times the promise has been finished -/
-structure MInv (E F : Bool) (s : St) (n : Nat) : Prop where
-  he : s.e2ee = E
-  hf : s.fixEmpty = F
+structure MInv (s : St) (n : Nat) : Prop where
   jobs_eq : s.jobs = s.waiting.length
   nodup : s.waiting.Nodup
   act : s.active = true → s.started = true
@@ -931,14 +928,13 @@ structure MInv (E F : Bool) (s : St) (n : Nat) : Prop where
   fresh : s.answered = false → s.waiting = [] ∧ n = 0
   state : s.answered = true →
     (s.waiting ≠ [] ∧ n = 0 ∧ s.active = true) ∨
-    (s.waiting = [] ∧ n = 1 ∧ s.active = false) ∨
-    (s.waiting = [] ∧ n = 0 ∧ s.active = true ∧ E = true ∧ F = false ∧ s.page = 0)
+    (s.waiting = [] ∧ n = 1 ∧ s.active = false)
 
-theorem MInv.init (e i f : Bool) : MInv e f (Mam.init e i f) 0 := by
-  refine ⟨rfl, rfl, rfl, by simp [Mam.init], ?_, ?_, ?_, ?_⟩ <;> simp [Mam.init]
+theorem MInv.init (e i : Bool) : MInv (Mam.init e i) 0 := by
+  refine ⟨rfl, by simp [Mam.init], ?_, ?_, ?_, ?_⟩ <;> simp [Mam.init]
 
-theorem step_minv {E F : Bool} (s : St) (n : Nat) (op : Op) (h : MInv E F s n) :
-    MInv E F (step s op).1 (n + finishes (step s op).2) := by
+theorem step_minv (s : St) (n : Nat) (op : Op) (h : MInv s n) :
+    MInv (step s op).1 (n + finishes (step s op).2) := by
   cases op with
   | start =>
     simp only [step]
@@ -950,13 +946,13 @@ theorem step_minv {E F : Bool} (s : St) (n : Nat) (op : Op) (h : MInv E F s n) :
         cases ha : s.answered with
         | false => rfl
         | true => have := h.ans ha; rw [hs'] at this; cases this
-      refine ⟨h.he, h.hf, h.jobs_eq, h.nodup, by simp, by simp, ?_, ?_⟩
+      refine ⟨h.jobs_eq, h.nodup, by simp, by simp, ?_, ?_⟩
       · intro _; simpa using h.fresh hna
       · intro ha; simp only at ha; rw [hna] at ha; cases ha
   | collect mine enc =>
     simp only [step]
     split
-    · exact ⟨h.he, h.hf, h.jobs_eq, h.nodup, h.act, h.ans, by simpa using h.fresh, by simpa using h.state⟩
+    · exact ⟨h.jobs_eq, h.nodup, h.act, h.ans, by simpa using h.fresh, by simpa using h.state⟩
     · have : finishes [Ev.signalled] = 0 := rfl
       rw [this]; simpa using h
   | iqError =>
@@ -968,9 +964,9 @@ theorem step_minv {E F : Bool} (s : St) (n : Nat) (op : Op) (h : MInv E F s n) :
       have hfr := h.fresh hc'.2
       have : finishes [Ev.finishedErr] = 1 := rfl
       rw [this]
-      refine ⟨h.he, h.hf, h.jobs_eq, h.nodup, by simp, fun _ => h.act hc'.1, by simp, ?_⟩
+      refine ⟨h.jobs_eq, h.nodup, by simp, fun _ => h.act hc'.1, by simp, ?_⟩
       intro _
-      right; left
+      right
       exact ⟨hfr.1, by omega, rfl⟩
   | iqResult =>
     simp only [step]
@@ -981,14 +977,13 @@ theorem step_minv {E F : Bool} (s : St) (n : Nat) (op : Op) (h : MInv E F s n) :
       have hfr := h.fresh hc'.2
       have hst := h.act hc'.1
       split
-      · rename_i he
-        split
-        · -- fixed: empty page finishes at once
+      · split
+        · -- empty page: finished at once
           have : finishes [Ev.finishedOk 0] = 1 := rfl
           rw [this]
-          refine ⟨h.he, h.hf, h.jobs_eq, h.nodup, by simp, fun _ => hst, by simp, ?_⟩
-          intro _; right; left; exact ⟨hfr.1, by omega, rfl⟩
-        · rename_i hfix
+          refine ⟨h.jobs_eq, h.nodup, by simp, fun _ => hst, by simp, ?_⟩
+          intro _; right; exact ⟨hfr.1, by omega, rfl⟩
+        · rename_i hm
           -- the loop
           have hj : ({ s with answered := true, jobs := s.msgs.length, page := s.msgs.length } : St).jobs
               = s.msgs.length + ({ s with answered := true, jobs := s.msgs.length, page := s.msgs.length } : St).waiting.length := by
@@ -996,33 +991,22 @@ theorem step_minv {E F : Bool} (s : St) (n : Nat) (op : Op) (h : MInv E F s n) :
           obtain ⟨h1, ⟨extra, h2, _, h4⟩, h5, h6, h7⟩ :=
             loop_spec s.msgs { s with answered := true, jobs := s.msgs.length, page := s.msgs.length } 0 hj hc'.1
           have h2' := h2.trans (show s.waiting ++ extra = extra by rw [hfr.1]; rfl)
-          have hE : E = true := by rw [← h.he]; simpa using he
-          refine ⟨h5.e2ee.trans h.he, h5.fix.trans h.hf, h1, by rw [h2']; exact h4, ?_, ?_, ?_, ?_⟩
+          refine ⟨h1, by rw [h2']; exact h4, ?_, ?_, ?_, ?_⟩
           · intro _; rw [h5.started]; exact hst
           · intro _; rw [h5.started]; exact hst
           · intro ha; rw [h5.answered] at ha; cases ha
           · intro _
             by_cases hw : (loop { s with answered := true, jobs := s.msgs.length, page := s.msgs.length } s.msgs 0).1.waiting = []
-            · by_cases hm : s.msgs = []
-              · have := h7 (Or.inr hm)
-                right; right
-                refine ⟨hw, by omega, this.2, hE, ?_, ?_⟩
-                · have hfx : ¬ (s.fixEmpty = true ∧ s.msgs = []) := by simpa using hfix
-                  rw [← h.hf]
-                  cases hff : s.fixEmpty with
-                  | false => rfl
-                  | true => exact absurd ⟨hff, hm⟩ hfx
-                · rw [h5.page]; simp [hm]
-              · have := h6 ⟨hw, hm⟩
-                right; left
-                exact ⟨hw, by omega, this.2⟩
+            · have := h6 ⟨hw, hm⟩
+              right
+              exact ⟨hw, by omega, this.2⟩
             · have := h7 (Or.inl hw)
               left
               exact ⟨hw, by omega, this.2⟩
       · have : finishes [Ev.finishedOk s.msgs.length] = 1 := rfl
         rw [this]
-        refine ⟨h.he, h.hf, h.jobs_eq, h.nodup, by simp, fun _ => hst, by simp, ?_⟩
-        intro _; right; left; exact ⟨hfr.1, by omega, rfl⟩
+        refine ⟨h.jobs_eq, h.nodup, by simp, fun _ => hst, by simp, ?_⟩
+        intro _; right; exact ⟨hfr.1, by omega, rfl⟩
   | decrypted i =>
     simp only [step]
     split
@@ -1032,9 +1016,8 @@ theorem step_minv {E F : Bool} (s : St) (n : Nat) (op : Op) (h : MInv E F s n) :
         | true => rfl
         | false => have := (h.fresh ha).1; rw [this] at hi; cases hi
       have hcase : n = 0 ∧ s.active = true := by
-        rcases h.state hans with h1 | h1 | h1
+        rcases h.state hans with h1 | h1
         · exact ⟨h1.2.1, h1.2.2⟩
-        · rw [h1.1] at hi; cases hi
         · rw [h1.1] at hi; cases hi
       have hlen := removeIdx_length h.nodup hi
       have hnd : (removeIdx s.waiting i).Nodup := List.Nodup.sublist (removeIdx_sublist _ _) h.nodup
@@ -1049,9 +1032,9 @@ theorem step_minv {E F : Bool} (s : St) (n : Nat) (op : Op) (h : MInv E F s n) :
           omega
         have : finishes [Ev.finishedOk s.page] = 1 := rfl
         rw [this]
-        refine ⟨h.he, h.hf, by simp [hw, hz'], by simp [hw], by simp, fun _ => h.ans hans, ?_, ?_⟩
+        refine ⟨by simp [hw, hz'], by simp [hw], by simp, fun _ => h.ans hans, ?_, ?_⟩
         · intro ha; simp only at ha; rw [hans] at ha; cases ha
-        · intro _; right; left; exact ⟨hw, by omega, rfl⟩
+        · intro _; right; exact ⟨hw, by omega, rfl⟩
       · rename_i hz
         have hz' : s.jobs - 1 ≠ 0 := hz
         have hw : removeIdx s.waiting i ≠ [] := by
@@ -1060,7 +1043,7 @@ theorem step_minv {E F : Bool} (s : St) (n : Nat) (op : Op) (h : MInv E F s n) :
           have := h.jobs_eq
           simp only [List.length_nil] at hlen
           omega
-        refine ⟨h.he, h.hf, ?_, hnd, fun _ => h.ans hans, fun _ => h.ans hans, ?_, ?_⟩
+        refine ⟨?_, hnd, fun _ => h.ans hans, fun _ => h.ans hans, ?_, ?_⟩
         · show s.jobs - 1 = (removeIdx s.waiting i).length
           have := h.jobs_eq
           omega
@@ -1068,8 +1051,8 @@ theorem step_minv {E F : Bool} (s : St) (n : Nat) (op : Op) (h : MInv E F s n) :
         · intro _; left; exact ⟨hw, by simpa using hcase.1, hcase.2⟩
     · simpa using h
 
-theorem run_minv {E F : Bool} (ops : List Op) : ∀ (s : St) (n : Nat), MInv E F s n →
-    MInv E F (run s ops).1 (n + finishes (run s ops).2) := by
+theorem run_minv (ops : List Op) : ∀ (s : St) (n : Nat), MInv s n →
+    MInv (run s ops).1 (n + finishes (run s ops).2) := by
   induction ops with
   | nil => intro s n h; simpa [run] using h
   | cons op rest ih =>
@@ -1078,9 +1061,9 @@ theorem run_minv {E F : Bool} (ops : List Op) : ∀ (s : St) (n : Nat), MInv E F
     have := ih _ _ (step_minv s n op h)
     simpa [Nat.add_assoc] using this
 
-theorem reachable_minv (e i f : Bool) (ops : List Op) :
-    MInv e f (run (Mam.init e i f) ops).1 (finishes (run (Mam.init e i f) ops).2) := by
-  have := run_minv ops _ _ (MInv.init e i f)
+theorem reachable_minv (e i : Bool) (ops : List Op) :
+    MInv (run (Mam.init e i) ops).1 (finishes (run (Mam.init e i) ops).2) := by
+  have := run_minv ops _ _ (MInv.init e i)
   simpa using this
 
 end Qx.C07.Mam
